@@ -281,6 +281,7 @@ type wWriter interface {
 	flush() error
 	close() error
 	columnWriters() []*parquet.ColumnWriter
+	reset(out io.Writer)
 }
 
 type wGeneric struct{ w *parquet.GenericWriter[wRow] }
@@ -289,6 +290,7 @@ func (g wGeneric) write(rows []wRow) (int, error)         { return g.w.Write(row
 func (g wGeneric) flush() error                           { return g.w.Flush() }
 func (g wGeneric) close() error                           { return g.w.Close() }
 func (g wGeneric) columnWriters() []*parquet.ColumnWriter { return g.w.ColumnWriters() }
+func (g wGeneric) reset(out io.Writer)                    { g.w.Reset(out) }
 
 type wAny struct {
 	w    *parquet.Writer
@@ -313,6 +315,7 @@ func (a wAny) write(rows []wRow) (int, error) {
 func (a wAny) flush() error                           { return a.w.Flush() }
 func (a wAny) close() error                           { return a.w.Close() }
 func (a wAny) columnWriters() []*parquet.ColumnWriter { return a.w.ColumnWriters() }
+func (a wAny) reset(out io.Writer)                    { a.w.Reset(out) }
 
 func wNew(api string, out io.Writer, opts []parquet.WriterOption) wWriter {
 	switch api {
